@@ -33,6 +33,9 @@ pub enum Trial {
     ExitContract { specs: Vec<ExecSpec>, kinds: Vec<String>, class: String, exit_code: Option<i32>, label: String },
     /// C16: invalid option combination: rejected with non-zero status before any output is written.
     Rejected { spec: ExecSpec, label: String },
+    /// C06: per-link findings are the same in every setting. `runs[0]` is the reference (a full run
+    /// on one merge); each other run is compared for the groups named in its role.
+    Isolate { runs: Vec<(IsoRole, ExecSpec)>, by_fee: bool, label: String },
     /// C02: one catalogue fault; every mode in which the rule is active must report it.
     Fault {
         /// one spec per check mode (index into CHECK_MODES)
@@ -79,6 +82,22 @@ pub enum Trial {
     StatsTruth { spec: ExecSpec, analysed: bool, label: String },
     /// C18: input ends after k bytes, for each k in `cuts`.
     Truncate { full: ExecSpec, cuts: Vec<u64>, allowed_status: Vec<i32>, rows_mode: bool, label: String },
+}
+
+#[derive(Serialize, Deserialize, Clone, Debug, PartialEq)]
+pub enum IsoRole {
+    /// full run, reference
+    Reference,
+    /// full run on another merge of the same per-link sequences: every group compared
+    OtherMerge,
+    /// physically extracted single-group stream: that group compared
+    Extracted(u16),
+    /// filter run on the reference stream: that group compared
+    Filtered(u16),
+    /// single-threaded pass of the extracted stream through one validator
+    Sequential(u16),
+    /// reference stream with an extra fault on group g: every group except g compared
+    CorruptedOther(u16),
 }
 
 #[derive(Serialize, Deserialize, Clone, Debug, PartialEq)]
@@ -311,6 +330,7 @@ impl Trial {
             }
             Trial::Rejected { spec, label } => crate::t_exit::run_rejected(ex, spec, label),
             Trial::Truthful { spec, label } => crate::t_stream::run_truthful(ex, spec, label),
+            Trial::Isolate { runs, by_fee, label } => crate::t_isolate::run_isolate(ex, runs, *by_fee, label),
             Trial::Fault { runs, expects, silent_in_sanity, silent_in_sanity_no_target, exit_code, fault } => {
                 run_fault(ex, runs, expects, *silent_in_sanity, *silent_in_sanity_no_target, *exit_code, fault)
             }
@@ -349,6 +369,7 @@ impl Trial {
             Trial::Markers { spec, .. } => vec![spec],
             Trial::RdhWalk { spec, .. } => vec![spec],
             Trial::Fault { runs, .. } => runs.iter_mut().map(|(_, s)| s).collect(),
+            Trial::Isolate { runs, .. } => runs.iter_mut().map(|(_, s)| s).collect(),
             Trial::FsmWalk { .. } => vec![],
             Trial::ExcessPadding { spec, .. } => vec![spec],
             Trial::Views { plain, styled, .. } => vec![plain, styled],
@@ -389,6 +410,13 @@ impl Trial {
                     silent_in_sanity_no_target: *silent_in_sanity_no_target,
                     exit_code: *exit_code,
                     fault: fault.clone(),
+                })
+                .collect(),
+            Trial::Isolate { runs, by_fee, label } if runs.len() > 2 => (1..runs.len())
+                .map(|i| Trial::Isolate {
+                    runs: vec![runs[0].clone(), runs[i].clone()],
+                    by_fee: *by_fee,
+                    label: label.clone(),
                 })
                 .collect(),
             Trial::Scan { specs, label } if specs.len() > 1 => specs
@@ -441,6 +469,9 @@ impl Trial {
                 "runs": kinds, "exec": s(&specs[0])}),
             Trial::Rejected { spec, label } => json!({"trial": "rejected", "label": label, "exec": s(spec)}),
             Trial::Truthful { spec, label } => json!({"trial": "truthful", "label": label, "exec": s(spec)}),
+            Trial::Isolate { runs, by_fee, label } => json!({
+                "trial": "isolate", "label": label, "group_by": if *by_fee { "FEE ID" } else { "link" },
+                "runs": runs.iter().map(|(r, sp)| json!({"role": format!("{r:?}"), "cmdline": sp.cmdline(), "input_bytes": sp.input.len(), "sequential_pass": sp.seq_pass})).collect::<Vec<_>>()}),
             Trial::Fault { runs, expects, fault, exit_code, .. } => json!({
                 "trial": "fault", "fault": fault, "any_errors_exit_code": exit_code,
                 "expectations": expects.iter().map(|e| json!({"codes": e.codes, "offset": format!("{:#X}", e.offset),
